@@ -334,6 +334,13 @@ def c03(tier):
             u = json.loads(json.dumps(c)); u["named_lists"] = True; u["id"] = c["id"] + "~n"
             nml.append(u)
     cases += nml
+    # ... and with struct *values* as rule results whose Discard() is declared on the pointer: `x*!` must still ask every element
+    vt = []
+    for c in grams.curated("lang") + grams.random_grammars(seed() + 33, 30 if quick else 150, prefix="rnd33", sugar=0.6):
+        if any(T["k"] == "starF" for r in c["rules"] for p in r["prods"] for T in p["terms"]):
+            u = json.loads(json.dumps(c)); u["valtypes"] = True; u["id"] = c["id"] + "~v"
+            vt.append(u)
+    cases += vt
     for c in cases:
         c["bounds"] = False
     cases = replay_filter(cases)
